@@ -123,7 +123,13 @@ class Harness:
         Applications with semantically equal but syntactically different arguments are therefore *not* forced to
         agree - an over-approximation (may only produce spurious models, which the replay filters out)."""
         if self.sym:
-            zargs = [z3.simplify(symx.toz(a)) for a in args]
+            zargs = []
+            for a in args:
+                nf = symx._nonfinite(a)
+                if nf is not None:        # the unknown function evaluated at +-inf / nan: its own fresh value
+                    zargs.append(z3.Real('nan' if nf != nf else ('+inf' if nf > 0 else '-inf')))
+                else:
+                    zargs.append(z3.simplify(symx.toz(a)))
             key = (name, tuple(a.sexpr() for a in zargs))
             tab = self.funs.setdefault(name, {})
             if key not in tab:
@@ -372,15 +378,17 @@ def discharge(ob, findings, prop, tier):
                 if not reproduced:
                     # the model may sit on "round" values where a float effect (rounding, cancellation) hides the
                     # violation: ask for nearby generic models (same path, same violation) and replay those
-                    for attempt in (1, 2, 3):
+                    rvars = [(name, v) for name, v in sorted(h.vars.items())
+                             if z3.is_real(v) and not isinstance(env.get(name), bool) and env.get(name) is not None]
+                    attempts = [('all', 1), ('all', 2)] + [('one', j) for j in range(min(len(rvars), 8))]
+                    for mode_, attempt in attempts:
                         pert = []
-                        for i, (name, v) in enumerate(sorted(h.vars.items())):
-                            if not z3.is_real(v):
+                        for i, (name, v) in enumerate(rvars):
+                            if mode_ == 'one' and i != attempt:
                                 continue
                             val = env.get(name)
-                            if isinstance(val, bool) or val is None:
-                                continue
-                            eps = fractions.Fraction(1234567 + 7919 * i, 10 ** 9) * attempt
+                            k_ = attempt if mode_ == 'all' else 1
+                            eps = fractions.Fraction(1234567 + 7919 * i, 10 ** 9) * k_
                             pert.append(v == symx.realval(val * (1 + eps) + eps / 7))
                         r3, m3 = symx.decide(path, z3.And(neg, *excl, *pert), timeout_ms=10000, closure=ob.closure,
                                              tangent=ob.tangent, stats=stats)
